@@ -543,7 +543,7 @@ func runR175(c *Ctx) {
 				return false
 			}
 			fa, ok := cc.Args[0].(*ssa.FieldAddr)
-			return ok && fieldOf(fa) == lock
+			return ok && sameField(fieldOf(fa), lock)
 		}
 		stale := ""
 		var stalePos token.Pos
